@@ -28,7 +28,7 @@ func (*c09World) ID() string   { return "C09" }
 func (*c09World) Name() string { return "c09" }
 func (*c09World) Runs(tier string) int {
 	if tier == "thorough" {
-		return 24000
+		return 60000
 	}
 	return 3000
 }
